@@ -459,3 +459,72 @@ def gen_barrier(rng, tier, sess, nthreads=None, steps=None):
                         break
     sess.send('log')
     sess.send('stats')
+
+
+# ------------------------------------------------------------------------------------------------
+# snapshot reference counts and collector hand-off (C08, C06 hand-off), interactive
+# ------------------------------------------------------------------------------------------------
+
+def gen_refcount(rng, tier, sess):
+    n = rng.choice((2, 2, 3, 4))
+    k = rng.choice((1, 2, 2, 3))
+    sess.send('init threads=%d snaps=%d' % (n, k))
+    busy = [False] * n
+    kind = [''] * n
+    arg = [0] * n
+    held = [1] * k
+    stick = rng.random()
+    last = 0
+
+    def handle(t, o):
+        if o.startswith('at '):
+            busy[t] = True
+        elif o.startswith('ret') or o == 'panic':
+            busy[t] = False
+            if kind[t] == 'open' and o == 'ret true':
+                held[arg[t]] += 1
+
+    def start(t):
+        r = rng.random()
+        s = rng.randrange(k)
+        if r < 0.4:
+            kind[t], arg[t] = 'open', s
+            handle(t, sess.send('start %d open %d' % (t, s + 1)))
+        elif r < 0.9:
+            cands = [i for i in range(k) if held[i] > 0]
+            if not cands:
+                kind[t], arg[t] = 'open', s
+                handle(t, sess.send('start %d open %d' % (t, s + 1)))
+                return
+            s = rng.choice(cands)
+            held[s] -= 1
+            kind[t], arg[t] = 'close', s
+            handle(t, sess.send('start %d close %d' % (t, s + 1)))
+        else:
+            kind[t] = 'gc'
+            handle(t, sess.send('start %d gc' % t))
+
+    for _ in range(rng.randrange(15, 120 if tier == 'quick' else 400)):
+        t = last if rng.random() < stick else rng.randrange(n)
+        last = t
+        if busy[t]:
+            handle(t, sess.send('step %d' % t))
+        elif rng.random() < 0.9:
+            start(t)
+        else:
+            sess.send('state')
+    guard = 0
+    while any(busy) and guard < 10000:
+        guard += 1
+        t = rng.choice([i for i in range(n) if busy[i]])
+        handle(t, sess.send('step %d' % t))
+    sess.send('state')
+    # release everything and let the collector finish: the property is evaluated at quiescence
+    for s in range(k):
+        while held[s] > 0:
+            held[s] -= 1
+            kind[0], arg[0] = 'close', s
+            handle(0, sess.send('start 0 close %d' % (s + 1)))
+            while busy[0]:
+                handle(0, sess.send('step 0'))
+    sess.send('state')
